@@ -216,6 +216,7 @@ def r2_fit(ctx):
         def _is_blockend(t):
             return any(x[0] == 'call' and x[1].endswith('::checked_add') for x in walk(t))
         rem = [a for a in atoms if a[0] == 'cmp' and (any(x[0] == 'bin' and x[1].startswith('Sub') for x in walk(a[2])) or
+                                                      (any(x[0] == 'call' and x[1].endswith('::checked_sub') for x in walk(a[2])) and _mentions_region_end(a[2])) or
                                                       (a[1] == 'eq' and ((_is_end(a[2]) and _is_blockend(a[3])) or (_is_end(a[3]) and _is_blockend(a[2])))))]
         # range form: `!(1..size_of::<ListNode>()).contains(&excess)` with excess = region end - block end
         for a in atoms:
@@ -306,6 +307,13 @@ def r3_size_agreement(ctx):
         l1 = layout_sites(fn)
         l2 = layout_sites(fdrop)
         ok = len(l1) == 1 and len(l2) == 1 and l1[0].targs == l2[0].targs == ['E']
+        if not ok and len(l1) == 1 and len(l2) == 1 and l1[0].targs == l2[0].targs and len(l1[0].targs) == 1 and len(l1[0].targs[0]) <= 2:
+            # both layouts come from spliced generic helpers (`allocate_for::<T>` / `deallocate_for::<T>`): each helper computes the layout
+            # of the very T whose pointer it hands out / takes (`cast::<T>` at the same T), and that pointer is LocalBox<E>'s `*mut E`
+            def typed_ptr(f, site):
+                T_ = site.targs[0]
+                return any(c.name.split('::')[-1] == 'cast' and c.targs and c.targs[-1] == T_ for c in f.calls()) or any(('*mut ' + T_) in (t or '') or ('*const ' + T_) in (t or '') for c in f.calls() for t in (c.argtys or []))
+            ok = typed_ptr(fn, l1[0]) and typed_ptr(fdrop, l2[0])
         ctx.check(ok, 'box-layout', 'LocalBox allocates and frees with Layout::new::<E>() of the same E', fn.where(), {'new_in': l1 and l1[0].targs, 'drop': l2 and l2[0].targs})
         dip = [s for s in fdrop.calls() if s.name.endswith('drop_in_place')]
         de = fdrop.calls_to(AL + '::deallocate')
